@@ -135,7 +135,7 @@
     every generator whose rounds enumerate exactly the indices below k ([perm_ok]).
 
     Client operations (what harness/C08/main.cpp executes on the real queue), thread t, k-th operation of the thread:
-      [1; v; s0; s1; ...]  enq v   "inv_enq v t k";  enqueue(item{v,t,k});  "ret_enq t k"
+      [1; v; s0; s1; ...]  enq v   "inv_enq v t k";  enqueue(item{v,t,k});  "ret_enq v t k"
       [2; s0; s1; ...]     deq     "inv_deq t k";    p = dequeue();  "ret_deq t k 1 v t' k'" (p = item{v,t',k'})
                                                                      "ret_deq t k 0"        (p = nullptr)            *)
 From Coq Require Import ZArith List String Bool Lia PeanoNat.
@@ -463,7 +463,7 @@ Definition dequeue (fuel t : nat) (ord : nat -> list nat) : prog deq_res :=
 Inductive op := OEnq (v : Z) (ord : nat -> list nat) | ODeq (ord : nat -> list nat).
 
 Definition ev_inv_enq (x : item) : ev := let '(t, k, v) := x in EvCli "inv_enq" [v; zn t; zn k].
-Definition ev_ret_enq (x : item) : ev := let '(t, k, _) := x in EvCli "ret_enq" [zn t; zn k].
+Definition ev_ret_enq (x : item) : ev := let '(t, k, v) := x in EvCli "ret_enq" [v; zn t; zn k].
 Definition ev_inv_deq (t k : nat) : ev := EvCli "inv_deq" [zn t; zn k].
 Definition ev_ret_deq_got (t k : nat) (x : item) : ev :=
   let '(t', k', v) := x in EvCli "ret_deq" [zn t; zn k; 1; v; zn t'; zn k'].
